@@ -2,11 +2,13 @@
 # usage: keepseed.py Cxx A|B  — copy a confirmed seeded defect into /verif/seeded/<id>-<ab>/
 import sys, json, os, shutil
 id, ab = sys.argv[1], sys.argv[2]
-src = f'/tmp/seed-out/{id}/{ab}'
+root = os.environ.get('SEEDROOT', '/tmp/seed-out')
+tag = os.environ.get('SEEDTAG', '')
+src = f'{root}/{id}/{ab}'
 conf = open(src + '/confirm.txt').read()
 assert 'confirmed=1' in conf, conf
 det = [l for l in conf.splitlines() if l.startswith('detected_by=')][0].split('=', 1)[1].split()
-dst = f'/verif/seeded/{id}-{ab}'
+dst = f'/verif/seeded/{id}-{tag}{ab}'
 os.makedirs(dst, exist_ok=True)
 shutil.copy(src + '/patch.diff', dst + '/patch.diff')
 shutil.copy(src + '/demo_test.go', dst + '/demo_test.go')
